@@ -659,8 +659,10 @@ fn denull(v: &mut Value) {
 	}
 }
 
-fn new_world(dir: &str) -> World {
+/// every second group of cases runs through the API structs the wallet binary serves (World::via_api)
+fn new_world(dir: &str, via_api: bool) -> World {
 	let mut w = World::new(dir, U);
+	w.via_api = via_api;
 	w.create_wallet("w1", false, None);
 	w.create_wallet("w2", false, None);
 	for _ in 0..4 {
@@ -677,7 +679,7 @@ fn new_world(dir: &str) -> World {
 fn run_group(dir: &str, g: usize, cases: &[Value]) -> Vec<String> {
 	let mut out = vec![];
 	let mut gen = 0;
-	let mut w = new_world(&format!("{}_{}", dir, gen));
+	let mut w = new_world(&format!("{}_{}", dir, gen), g % 2 == 1);
 	let mut ctl = Ctl { stale_sig: None };
 	for c in cases {
 		let r = std::panic::catch_unwind(std::panic::AssertUnwindSafe(|| run_case(&mut w, c, &mut ctl)));
@@ -702,7 +704,7 @@ fn run_group(dir: &str, g: usize, cases: &[Value]) -> Vec<String> {
 			drop(w);
 			let _ = std::fs::remove_dir_all(&old);
 			gen += 1;
-			w = new_world(&format!("{}_{}", dir, gen));
+			w = new_world(&format!("{}_{}", dir, gen), g % 2 == 1);
 			ctl = Ctl { stale_sig: None };
 		}
 	}
